@@ -41,9 +41,9 @@ pub open spec fn ref_str() -> Seq<char> { "#REF!"@ }
         }),
 //@rewrite `) -> String {` => `) -> (r: String) {`
 //@rewrite `crate::expressions::utils::number_to_column(column)` => `number_to_column(column)`
-//@before `match displace_data {`
-            let ghost row0 = row as int;
-            let ghost col0 = column as int;
+//@after `Some(context) => {`
+            let ghost row0 = if reference.absolute_row { reference.row as int } else { reference.row + context.row };
+            let ghost col0 = if reference.absolute_column { reference.column as int } else { reference.column + context.column };
             proof { reveal_strlit("#REF!"); }
 //@before#1 `return "#REF!".to_string();`
                                     assert(disp(*displace_data, sheet_index, full_row, full_column, row0, col0) is None);
